@@ -350,9 +350,9 @@ Proof. exact cluster_function_of_chain_refuted. Qed.
 Print Assumptions C08_cluster_function_of_chain_refuted.
 
 (** A weaker hypothesis does not suffice: even with BPCOUNT constant on the whole main chain, a
-    node that rolled forward across an election boundary while its in-memory BPCOUNT was still the
-    abandoned branch's value (parameters are reloaded only at the end of chain.reorg) has a
-    different producer set than a node with the same main chain that never saw that branch. *)
+    node that was restarted, then saw an abandoned branch with another BPCOUNT and reorganised
+    (Status.Update(fork point) runs before the parameters are reloaded, fix F41 reloads them right
+    after) has a different producer set than a node with the same main chain that never saw it. *)
 Theorem C08_cluster_function_of_chain_main_const_refuted :
   exists sto gen self evs1 evs2,
     Forall ev_ok evs1 /\ Forall ev_ok evs2 /\
